@@ -15,7 +15,9 @@ Theorem C11_writer : forall sp id o, w_validate sp id o = true <-> Matches (get_
 Proof. exact w_validate_spec. Qed.
 
 (* ... it is applied to every non-End tag whose id the specification knows - NOT "under every option": the two earlier steps
-   of the writer must let the tag through.  Hypothesis 2, [o_unknown o && negb (is_master_ty ...) = false]: the options do not
+   of the writer must let the tag through.  ([should_validate] and [buffer_act], Proofs/WriterProofs.v, follow the writer in reading
+   the declared type through [raw_type]: since the repair D27 a tag that answers as_binary() - a RawTag - whose id is declared with a
+   non-binary type counts as one with an undeclared id: it is not checked against the hierarchy, [should_validate] is false for it.)  Hypothesis 2, [o_unknown o && negb (is_master_ty ...) = false]: the options do not
    request an unknown size for a non-master (that combination is answered with the size error before the hierarchy is looked
    at).  Hypothesis 3, [is_master_ty ... && negb (is_master_tag t) = false]: a master id is not written as a non-master tag
    (the writer model answers that with a panic outcome).  An explicit width and the deprecated call make no difference.  A rejection is
